@@ -481,7 +481,7 @@ def check_encode_cat(ctx, n_cases):
         before = norm(rows)
         case = dict(what="EncodeCatRows", tipe=tipe, rows=repr(rows)[:400], shared_nested_list=shared is not None); ctx.count("encode-cat:%s:%s" % (kind, tipe), repr(case), n >= 2)
         try:
-            first = [norm(r) for r in EncodeCatRows(tipe).filter(rows)]
+            raw_first = list(EncodeCatRows(tipe).filter(rows)); first = [norm(r) for r in raw_first]
             mid = norm(rows)
             second = [norm(r) for r in EncodeCatRows(tipe).filter(rows)]
         except Exception as e:
@@ -490,6 +490,10 @@ def check_encode_cat(ctx, n_cases):
             ctx.fail(["encode-cat", "source-rows-modified"], "EncodeCatRows(%r) changed the rows it was given: %r -> %r" % (tipe, before, norm(rows)), case); continue
         if first != second:
             ctx.fail(["encode-cat", "second-pass-differs"], "EncodeCatRows(%r): a second pass over the same rows gives %r, the first gave %r" % (tipe, second, first), case); continue
+        if kind == "list" and tipe in ("string", "onehot_tuple") and shared is None:      # one value where the categorical stood: the in-place assignments, nested to any depth
+            def wire_in(x): return [1, list(x.levels).index(str(x)), len(x.levels)] if isinstance(x, Categorical) else [2, [wire_in(y) for y in x]] if isinstance(x, (list, tuple)) else [0, x]
+            def wire_out(x): return [3, LV.index(x)] if isinstance(x, str) else [4, list(x)] if isinstance(x, tuple) else [2, [wire_out(y) for y in x]] if isinstance(x, list) else [0, x]
+            for r, f in zip(rows, raw_first): model_reqs.append((513, [0 if tipe == "string" else 1, wire_in(r)])); model_metas.append((case, wire_out(list(f))))
         if kind == "dict" and shape == "flat" and tipe == "onehot":      # the sparse flat form: the entry of the categorical goes, name_level -> 1 comes
             for r, f in zip(rows, first):
                 if not isinstance(f, dict): continue
